@@ -137,9 +137,12 @@ static bool comp_add_to_data(zckCtx *zck, zckComp *comp, const char *src,
 static ssize_t comp_end_dchunk(zckCtx *zck, bool use_dict, size_t fd_size) {
     VALIDATE_READ_INT(zck);
 
-    if(!zck->comp.end_dchunk(zck, &(zck->comp), use_dict, fd_size))
+    /* Check the stored chunk before anything is decompressed from it */
+    if(validate_current_chunk(zck) < 1) {
+        set_error(zck, "Chunk failed checksum verification");
         return -1;
-    if(validate_current_chunk(zck) < 1)
+    }
+    if(!zck->comp.end_dchunk(zck, &(zck->comp), use_dict, fd_size))
         return -1;
     zck->comp.data_loc = 0;
     zck->comp.data_idx = zck->comp.data_idx->next;
